@@ -152,6 +152,19 @@ CHECKS['C02'] = dict(
     technique='product-program symbolic execution of port and reference on shared symbolic inputs + Z3 per path',
 )
 
+CHECKS['C14'] = dict(
+    level='model_checking',
+    text='Symbolic execution of every operator / accessor / helper in scope on operands with symbolic payload, using the '
+         'real NumPy object arrays so that views and aliases behave as in production: after each call, per feasible path, '
+         'every array reachable from an operand is unchanged (identity, shape, exact elements), no array exposed by the '
+         'result shares memory with an operand, mutating copies / getter results never reaches the source, default-'
+         'constructed instances are identity/zero after arbitrary mutation of earlier ones, and arrays handed to the Arm '
+         'constructor and to ported MR functions are unaltered. Path structure (e.g. early returns when frames coincide) '
+         'is decided by Z3.',
+    design='5/C14',
+    technique='symbolic execution of the Python source on real (object) ndarrays + structural alias analysis per path; Z3 for branches',
+)
+
 NOT_APPLICABLE = {
 }
 
